@@ -249,6 +249,15 @@ Section WithOracle.
     | o :: t => let '(s1, calls, r) := step s o in (o, calls, r) :: run s1 t
     end.
 
+  (* the state after a sequence, and all callback invocations of a run *)
+  Fixpoint exec (s : st) (ops : list op) : st :=
+    match ops with
+    | [] => s
+    | o :: t => let '(s1, _, _) := step s o in exec s1 t
+    end.
+  Definition all_calls (rs : list (op * list inv * ret)) : list inv :=
+    List.concat (map (fun t => snd (fst t)) rs).
+
   Fixpoint run_ev (s : st) (ec : option nat) (ops : list op) : list (ret * list (inv * evcall)) :=
     match ops with
     | [] => []
@@ -277,6 +286,18 @@ Section WithOracle.
     | JacAll (Batch _) | Grad (Batch _) | Con _ (Batch _) | Jac _ (Batch _) => RErr
     end.
 End WithOracle.
+
+Definition rf_of (iv : inv) : bool := snd (fst iv).      (* return_functions *)
+Definition rg_of (iv : inv) : bool := snd iv.            (* return_gradients *)
+Definition pt_of (iv : inv) : pt := fst (fst iv).
+Definition count_rf (l : list inv) : nat := List.length (filter rf_of l).
+Definition count_rg (l : list inv) : nat := List.length (filter rg_of l).
+(* shape of the array handed to a callable: None = 1-D vector, Some n = matrix of n points *)
+Definition shape (x : pt) : option nat := match x with Single _ => None | Batch l => Some (List.length l) end.
+
+Definition with_spec (b : bool) (c : config) : config :=
+  {| c_spec := b; c_split := c_split c; c_nograd := c_nograd c; c_has_nl := c_has_nl c;
+     c_rows := c_rows c; c_lin := c_lin c |}.
 
 (* configuration of the cache model from the problem description (method tables are generated) *)
 Definition make_config (p : problem) (spec split : bool) : option config :=
